@@ -521,6 +521,7 @@ func (s *Server) handleSessionMessage(addr *net.UDPAddr, msg []byte) error {
 
 // Serve blocks until the server is closed.
 func (s *Server) Serve() error {
+	verifYield("sv.serve.lock")
 	s.lifecycleMu.Lock()
 	if !s.state.CompareAndSwap(uint32(serverStateReady), uint32(serverStateServing)) {
 		s.lifecycleMu.Unlock()
@@ -570,7 +571,9 @@ func (s *Server) Serve() error {
 		}
 	}()
 
+	verifYield("sv.serve.wgwait")
 	s.wg.Wait()
+	verifYield("sv.serve.waitdone")
 	<-s.closeDone
 	return nil
 }
@@ -621,6 +624,7 @@ func (s *Server) handlePQClientHello(b []byte) (*HandshakeState, error) {
 }
 
 func (s *Server) finishHandshake(hs *HandshakeState, isHidden bool) error {
+	verifYield("sv.finish.lock")
 	s.m.Lock()
 	defer s.m.Unlock()
 
@@ -754,13 +758,16 @@ func (s *Server) Addr() net.Addr {
 
 // Close stops the server, causing Serve() to return.
 func (s *Server) Close() (err error) {
+	verifYield("sv.close.lock")
 	s.lifecycleMu.Lock()
 	for {
 		cur := serverState(s.state.Load())
 		switch cur {
 		case serverStateClosing, serverStateClosed:
 			s.lifecycleMu.Unlock()
+			verifYield("sv.close.waitdone")
 			<-s.closeDone
+			verifYield("sv.close.ret")
 			return s.closeErr
 		default:
 			if s.state.CompareAndSwap(uint32(cur), uint32(serverStateClosing)) {
@@ -773,10 +780,13 @@ func (s *Server) Close() (err error) {
 closing:
 	// Closing the socket unblocks both the Serve read loop and any in-flight
 	// writes before we wait for workers or acquire per-session locks.
+	verifYield("sv.close.conn")
 	s.closeErr = s.udpConn.Close()
 	close(s.stopCookieRotate)
+	verifYield("sv.close.wgwait")
 	s.wg.Wait()
 
+	verifYield("sv.close.pending")
 	s.m.Lock()
 	close(s.pendingConnections)
 	sessions := make([]*SessionState, 0, len(s.sessions))
@@ -793,7 +803,9 @@ closing:
 		}
 	}
 
+	verifYield("sv.close.store")
 	s.state.Store(uint32(serverStateClosed))
+	verifYield("sv.close.signal")
 	close(s.closeDone)
 	return s.closeErr
 }
